@@ -29,6 +29,11 @@ func c12(c *Ctx) {
 	c12forms(c)
 	c12move(c)
 	c12drainCoverage(c)
+	// R9 (round 4): the batch of due timers handed to the goroutine that fires them belongs to that tick alone
+	{
+		bad, sites := c.asyncBatchOwned(twPkg)
+		c.R.Check(len(bad) == 0 && sites >= 1, "C12.R9", twPkg+"#async-batches", "a slice handed to a function that reads it from a goroutine it starts (runTasks) is built from nil/make by that call and not kept by the caller: the next tick cannot overwrite timers the previous tick's goroutine has not fired yet", "-", fmt.Sprintf("%d hand-off sites; %s", sites, strings.Join(bad, "; ")), bad, sites)
+	}
 	// the in-memory cache is the wheel's main client: it must move/set the key's timer with the expiry of this call
 	c16cacheAs(c, "C12.R7", true)
 }
